@@ -179,4 +179,124 @@ Proof.
     + congruence.
 Qed.
 
+(* ---------------------------------------------------------------- update of node i, as seen by callers *)
+Lemma frames_above stk t i s : Inv stk t s -> i < t ->
+  ~ In i stk /\ (forall k, In k stk -> i < k).
+Proof.
+  intros [Iw _] Hit. split.
+  - intros Hin. pose proof (inv_run_ge _ _ _ _ Iw i Hin). lia.
+  - intros k Hk. pose proof (inv_run_ge _ _ _ _ Iw k Hk). lia.
+Qed.
+
+Lemma Inv_restore stk t i s s' :
+  Inv stk t s -> i < t -> Inv stk i s' -> PullRel (S i) stk None s s' -> Inv stk t s'.
+Proof.
+  intros I Hit I' P. destruct (frames_above stk t i s I Hit) as (_ & Hgt).
+  destruct I as [Iw _].
+  apply (Inv_raise p stk t i s' I').
+  - intros k x Hk Hx. destruct (pr_above _ _ _ _ _ _ P k) as (Hr & Hs).
+    { pose proof (Hgt k Hk). lia. } { discriminate. }
+    rewrite Hs in Hx. rewrite Hr. eapply inv_run_src; eauto.
+  - intros k Hk. eapply inv_run_ge; eauto.
+Qed.
+
+Lemma node_update_spec i U R : USpec i U -> RSpec i R ->
+  forall c s stk t s' ch,
+    i < t -> Inv stk t s -> ctx_ok stk c ->
+    node_update p U R c i s = (s', ch) ->
+    Inv stk t s' /\ PullRel (S i) stk None s s' /\
+    subs (getn s' i) = subs (getn s i) /\
+    (memob i = true -> st (getn s' i) = Clean /\ cache (getn s' i) <> None).
+Proof.
+  intros HU HR c s stk t s' ch Hit I C Hn. unfold node_update in Hn.
+  destruct (decl_of p i) eqn:Hd;
+    try (inversion Hn; subst; split; auto; split; [apply PullRel_refl|]; split; auto;
+         unfold GraphInvariant.memob; rewrite Hd; discriminate).
+  destruct (frames_above stk t i s I Hit) as (Hni & Hgt).
+  destruct (memo_update_spec i c0 e U R Hd HU HR c s stk s' ch (Inv_lower p stk t i s ltac:(lia) I) C Hni Hgt Hn)
+    as (I' & P' & Hsu & Hst & Hca).
+  split; [eapply Inv_restore; eauto|]. split; auto.
+Qed.
+
+(* ---------------------------------------------------------------- read of a memo *)
+Lemma read_memo U R i cm e : decl_of p i = DMemo cm e -> USpec i U -> RSpec i R ->
+  forall m c s stk t s' v, i < t -> Inv stk t s -> ctx_ok stk c -> TopOK c s ->
+  node_read p U R m c i s = (s', v) ->
+  Inv stk t s' /\ TopOK c s' /\ PullRel (S i) stk (fst c) s s' /\
+  (memob i = true -> st (getn s' i) = Clean /\ cache (getn s' i) = Some v) /\
+  (sigb i = true -> v = sval (getn s' i)).
+Proof.
+  intros Hd HU HR m c s stk t s' v Hit I C T Hr. unfold node_read in Hr. rewrite Hd in Hr.
+  assert (Hm : memob i = true) by (unfold GraphInvariant.memob; rewrite Hd; auto).
+  assert (Hns : sigb i = false) by (unfold GraphInvariant.sigb; rewrite Hd; auto).
+  destruct (frames_above stk t i s I Hit) as (Hni & Hgt).
+  destruct (m && snd c) eqn:Et.
+  - (* tracked *)
+    apply andb_prop in Et as [-> Hs].
+    destruct (obs_of_tracked c stk C Hs) as (o & Hw & Ho).
+    destruct (Inv_track p stk t c o i s I C Ho T Hit) as (I1 & Hp & P1 & Hsro & Hrl & _).
+    set (s1 := track c i s) in *.
+    destruct (memo_update p U R c i cm e s1) as [s2 ch] eqn:Emu.
+    inversion Hr; subst s' v. clear Hr.
+    destruct (memo_update_spec i cm e U R Hd HU HR c s1 stk s2 ch I1 C Hni Hgt Emu)
+      as (I2 & P2 & _ & Hst2 & Hca2).
+    destruct (ctx_ok_obs stk c o C Ho) as [_ Hin].
+    assert (Hio : i < o) by (apply Hgt; auto).
+    destruct (pr_above _ _ _ _ _ _ P2 o ltac:(lia)) as (Hro2 & Hso2). { discriminate. }
+    destruct I as [Iw Iv].
+    destruct (Inv_log_tracked p stk t c o i (cache_val (getn s2 i)) s2 I2 Hw Hin) as (I3 & T3 & P3); auto.
+    + intros k x Hk Hko Hx. pose proof (Hgt k Hk).
+      destruct (pr_above _ _ _ _ _ _ P2 k ltac:(lia)) as (Hr2 & Hs2). { discriminate. }
+      rewrite Hs2, Hsro in Hx by auto. rewrite Hr2, Hrl. eapply inv_run_src; eauto.
+    + intros k Hk. eapply inv_run_ge; eauto.
+    + rewrite Hso2, Hro2. exact Hp.
+    + unfold GraphInvariant.cur. rewrite Hd. reflexivity.
+    + split; auto. split; auto. split.
+      { rewrite Hw. eapply PullRel_trans; [exact P1|]. eapply PullRel_trans; [apply PullRel_addex; exact P2|exact P3]. }
+      split; [|intros; congruence].
+      intros _. destruct (log_read_other_fields c i (cache_val (getn s2 i)) true true s2 i) as (_&_&->&->&_).
+      split; auto. unfold cache_val. destruct (cache (getn s2 i)); [reflexivity|congruence].
+  - (* untracked *)
+    assert (Hs1 : (if m then track c i s else s) = s).
+    { destruct m; auto. cbn in Et. apply track_none. apply obs_of_untracked; auto. }
+    rewrite Hs1 in Hr.
+    destruct (memo_update p U R c i cm e s) as [s2 ch] eqn:Emu.
+    inversion Hr; subst s' v. clear Hr.
+    destruct (memo_update_spec i cm e U R Hd HU HR c s stk s2 ch (Inv_lower p stk t i s ltac:(lia) I) C Hni Hgt Emu)
+      as (I2 & P2 & _ & Hst2 & Hca2).
+    assert (I2' : Inv stk t s2) by (eapply Inv_restore; eauto).
+    assert (T2 : TopOK c s2).
+    { unfold TopOK in *. destruct (fst c) as [w|] eqn:Hw; auto.
+      assert (Hwin : In w stk). { unfold ctx_ok in C. rewrite Hw in C. destruct C as [tl ->]. left; auto. }
+      pose proof (Hgt w Hwin).
+      destruct (pr_above _ _ _ _ _ _ P2 w ltac:(lia)) as (Hr2 & Hs2). { discriminate. }
+      unfold L1 in *. rewrite Hs2, Hr2. exact T. }
+    destruct (Inv_log_untracked p stk t c i (cache_val (getn s2 i)) true s2 I2' C T2) as (I3 & T3 & P3).
+    split; auto. split; auto. split.
+    { eapply PullRel_trans; [apply PullRel_addex; exact P2|exact P3]. }
+    split; [|intros; congruence].
+    intros _. destruct (log_read_other_fields c i (cache_val (getn s2 i)) false true s2 i) as (_&_&->&->&_).
+    split; auto. unfold cache_val. destruct (cache (getn s2 i)); [reflexivity|congruence].
+Qed.
+
+(* ---------------------------------------------------------------- every level *)
+Theorem lvl_spec : forall n, USpec n (fst (lvl p n)) /\ RSpec n (snd (lvl p n)).
+Proof.
+  induction n as [|n [IHU IHR]].
+  - split; intros c; intros; lia.
+  - cbn [lvl]. split.
+    + intros c j s stk t s' ch Hj Hjt I C HU. cbn [fst] in HU.
+      destruct (Nat.eqb_spec j n) as [->|Hjn].
+      * apply (node_update_spec n _ _ IHU IHR c s stk t s' ch Hjt I C HU).
+      * apply (IHU c j s stk t s' ch ltac:(lia) Hjt I C HU).
+    + intros m c j s stk t s' v Hj Hjt He I C T HR. cbn [snd] in HR.
+      destruct (Nat.eqb_spec j n) as [->|Hjn].
+      * destruct (decl_of p n) eqn:Hd.
+        -- apply (read_sig p _ _ n take init Hd m c s stk t s' v Hjt I C T HR).
+        -- apply (read_memo _ _ n c0 e Hd IHU IHR m c s stk t s' v Hjt I C T HR).
+        -- apply (read_der p wfp _ _ n e Hd IHR m c s stk t s' v Hjt I C T HR).
+        -- unfold GraphInvariant.effb in He. rewrite Hd in He. discriminate.
+      * apply (IHR m c j s stk t s' v ltac:(lia) Hjt He I C T HR).
+Qed.
+
 End P.
